@@ -14,7 +14,7 @@ static struct cstl_heap H[2];
 static int cur;
 static unsigned char held[MAXN + 1];
 
-static int cmp(const void *a, const void *b, void *p) { e_check_priv(p); return ((const struct el *)a)->prio - ((const struct el *)b)->prio; }
+static int cmp(const void *a, const void *b, void *p) { e_check_priv(p); return e_cmp3(((const struct el *)a)->prio, ((const struct el *)b)->prio); }
 static int id_of_el(const void *e)
 {
     uintptr_t d;
